@@ -31,6 +31,7 @@ def main(tier, replay):
         for rev in (False, True):
             J('pipeline-%s-maps-%s' % (n, 'reversed' if rev else 'forward'), n, 'HarnessPipeline', [0, 2, 1, 1, 1, 1, 0, 1, 0, 0], 1, rev=rev, stub=(n in ('p2', 'flat24')))
     J('sens-stale', 'p1', 'HarnessIsolation', [1, 1, 1, 1, 0, 1, 1], 1, expect='independent of recycled buffer content')
+    jobs[-1]['no_native'] = True  # the seeded fault lives in the symbolic branch of the harness (stale bytes do not exist natively)
     run_program_jobs(c, mod, infos, jobs, native_templates=NATIVE)
     c.programs = len(P)
     mr = sum((jr.get('reach') or {}).get('map-range-over-2+-entries', 0) for j, jr, x in c.jobs)
